@@ -246,6 +246,31 @@ func (x *exec) ownEnv(s *State) *specEnv {
 	return env
 }
 
+// lockSnap returns the snapshot taken at the lock acquisition in effect in
+// the current state (nil if none or ambiguous).
+func (env *specEnv) lockSnap() *State {
+	var found *State
+	for k, v := range env.cur.snap {
+		if strings.HasPrefix(k, "lock:") {
+			if held, ok := env.cur.held[k[5:]]; ok && !held.IsFalse() {
+				if found != nil {
+					return nil
+				}
+				found = v
+			}
+		}
+	}
+	return found
+}
+
+func (env *specEnv) evalOld(ex ast.Expr) Value {
+	saved := env.inOld
+	env.inOld = true
+	v := env.eval(ex)
+	env.inOld = saved
+	return v
+}
+
 func (env *specEnv) state() *State {
 	if env.inOld && env.old != nil {
 		return env.old
@@ -603,6 +628,15 @@ func (env *specEnv) evalIdent(id *ast.Ident) Value {
 		}
 		// package-level variable
 		if o.Pkg() != nil && o.Parent() == o.Pkg().Scope() {
+			if strings.HasPrefix(o.Name(), "Ghost_") {
+				t := x.topExec()
+				if cell, ok := t.ghostCells[o.Name()]; ok {
+					if v, ok := env.state().cells[cell]; ok {
+						return v
+					}
+				}
+				return e.zero(o.Type())
+			}
 			if sp := e.P.SSA.Package(o.Pkg()); sp != nil {
 				if g, ok := sp.Members[o.Name()].(*ssa.Global); ok {
 					return e.load(env.state(), e.globalPtr(g))
@@ -835,6 +869,16 @@ func (env *specEnv) evalCall(n *ast.CallExpr) Value {
 		v := env.eval(n.Args[0])
 		env.inOld = saved
 		return v
+	case "atlock_":
+		// value in the state right after the (single) lock acquisition in effect
+		ls := env.lockSnap()
+		if ls == nil {
+			return env.eval(n.Args[0])
+		}
+		sub := *env
+		sub.cur = ls
+		sub.inOld = false
+		return sub.eval(n.Args[0])
 	case "implies_":
 		av, bv := env.eval(n.Args[0]), env.eval(n.Args[1])
 		a, ok1 := av.(*Term)
@@ -913,6 +957,24 @@ func (env *specEnv) evalCall(n *ast.CallExpr) Value {
 			base = env.old.next
 		}
 		return c.Le(base, e.rootOf(r))
+	case "existing_":
+		// allocated no later than the current state (closed heap)
+		var r *Term
+		switch v := env.eval(n.Args[0]).(type) {
+		case SliceV:
+			r = v.Arr
+		case PtrV:
+			rr, err := e.refOfPtr(v)
+			if err != nil {
+				return PoisonV{err.Error()}
+			}
+			r = rr
+		case *Term:
+			r = v
+		default:
+			return PoisonV{"existing_ argument"}
+		}
+		return c.Lt(e.rootOf(r), env.state().next)
 	case "samearr_":
 		a, ok1 := env.eval(n.Args[0]).(SliceV)
 		b, ok2 := env.eval(n.Args[1]).(SliceV)
@@ -920,6 +982,52 @@ func (env *specEnv) evalCall(n *ast.CallExpr) Value {
 			return PoisonV{"samearr_ arguments"}
 		}
 		return c.And(c.Eq(a.Arr, b.Arr), c.Eq(a.Off, b.Off))
+	case "samerow_":
+		// the whole backing arrays have equal contents (old() selects the state)
+		a, ok1 := n.Args[0], true
+		av, ok1 := env.eval(a).(SliceV)
+		if !ok1 {
+			return PoisonV{"samerow_ arguments"}
+		}
+		el := env.typeOf(n.Args[0]).Underlying().(*types.Slice).Elem()
+		ls := e.leavesOf(el)
+		if len(ls) != 1 || structOf(el) != nil {
+			return PoisonV{"samerow_ on non-scalar elements"}
+		}
+		key := elemKey(el) + ls[0].comp
+		so := Array(Int, Array(Int, ls[0].sort))
+		rowNow := c.Select(e.heapGet(env.state(), key, so), av.Arr)
+		// second argument: evaluated (usually under old()) for its state
+		var rowThen *Term
+		if call, ok := n.Args[1].(*ast.CallExpr); ok {
+			if id, ok := call.Fun.(*ast.Ident); ok && id.Name == "old_" && env.old != nil {
+				bv, ok2 := env.evalOld(call.Args[0]).(SliceV)
+				if !ok2 {
+					return PoisonV{"samerow_ arguments"}
+				}
+				rowThen = c.Select(e.heapGet(env.old, key, so), bv.Arr)
+			}
+			if id, ok := call.Fun.(*ast.Ident); ok && id.Name == "atlock_" {
+				if ls := env.lockSnap(); ls != nil {
+					sub := *env
+					sub.cur = ls
+					sub.inOld = false
+					bv, ok2 := sub.eval(call.Args[0]).(SliceV)
+					if !ok2 {
+						return PoisonV{"samerow_ arguments"}
+					}
+					rowThen = c.Select(e.heapGet(ls, key, so), bv.Arr)
+				}
+			}
+		}
+		if rowThen == nil {
+			bv, ok2 := env.eval(n.Args[1]).(SliceV)
+			if !ok2 {
+				return PoisonV{"samerow_ arguments"}
+			}
+			rowThen = c.Select(e.heapGet(env.state(), key, so), bv.Arr)
+		}
+		return c.Eq(rowNow, rowThen)
 	case "typeis_":
 		iv, ok := env.eval(n.Args[0]).(IfaceV)
 		if !ok {
@@ -1329,6 +1437,7 @@ func (x *exec) applyContract(s *State, blk *Block, fn *ssa.Function, args []Valu
 	if cs == nil {
 		return x.defaultCall(s, key, args, sig, pos)
 	}
+	rmi, rowner, rk, relock := x.beforeRelockingCall(s, blk, cs, args, pos)
 	old := s.clone()
 	// the callee may allocate: values it stores may be references newer than ours
 	{
@@ -1371,6 +1480,9 @@ func (x *exec) applyContract(s *State, blk *Block, fn *ssa.Function, args []Valu
 		x.noteAlloc(s, pos, "call:"+calleeShort(key))
 		s.alloc = old.alloc
 	}
+	if relock {
+		x.afterRelockingCall(s, rmi, rowner, rk)
+	}
 	var vals []Value
 	for i := 0; i < sig.Results().Len(); i++ {
 		vals = append(vals, e.fresh(sig.Results().At(i).Type(), "r:"+calleeShort(key), s))
@@ -1411,15 +1523,16 @@ func (x *exec) havocModifies(s, old *State, cl *Clause, blk *Block, fn *ssa.Func
 		}
 		if item == "*" {
 			e.noteWrite(s, "*", wtarget{kind: wAll})
-			for key, so := range e.heapSorts {
-				s.heap[key] = c.Fresh("mod.H:"+key, so)
+			for _, key := range sortedSortKeys(e.heapSorts) {
+				s.heap[key] = c.Fresh("mod.H:"+key, e.heapSorts[key])
 			}
 			continue
 		}
 		if strings.HasPrefix(item, "heap:") {
 			// whole heap key by name
 			key := strings.TrimPrefix(item, "heap:")
-			for k, so := range e.heapSorts {
+			for _, k := range sortedSortKeys(e.heapSorts) {
+				so := e.heapSorts[k]
 				if k == key || strings.HasPrefix(k, key+"#") {
 					e.noteWrite(s, k, wtarget{kind: wAll})
 					s.heap[k] = c.Fresh("mod.H:"+k, so)
